@@ -86,7 +86,7 @@ def run(rep, work, tier, seed, only=None):
         dd = '[' + '; '.join('DD %s %s %s' % (P4[d[0]], P4[d[1]], P4[d[2]]) for d in r['dicts']) + ']'
         return 'dists_ok (%d # 16) (%d # 8) (%d # 8) (%d # 8) %s %s' % (r['p16'], a, b, c, dd, dists_lit(r['impl']))
     for r in data['dists']:
-        rep.case(('dist', r['cls'], tuple(r['size']), r['name'], r['axis'], tuple(r['dir']), r['p16']), r['p16'] > 0,
+        rep.case(('dist', r['cls'], tuple(r['size']), r['name'], r['axis'], tuple(r['dir']), r['p16'], r.get('again', False)), r['p16'] > 0,
                  sample={'cls': r['cls'], 'size': r['size'], 'deformation': r['name'], 'axis': r['axis'],
                          'direction_eighths': r['dir'], 'rate_sixteenths': r['p16']} if len(rep.samples) < 3 else None)
         rep.count('distribution')
@@ -105,7 +105,8 @@ def run(rep, work, tier, seed, only=None):
         what = ('qubit %d has (pI,pX,pY,pZ) = %s, the stated channel permuted by %s gives %s'
                 % (bad[0], [str(x) for x in bad[2]], r['dicts'][bad[0]], [str(x) for x in bad[1]])) if bad else 'distribution obligation false'
         rep.violation(ikey(r, 'probability_distribution'),
-                      '%s%s deformation=%s axis=%s direction=%s/8 p=%d/16: %s' % (r['cls'], tuple(r['size']), r['name'], r['axis'], r['dir'], r['p16'], what),
+                      '%s%s deformation=%s axis=%s direction=%s/8 p=%d/16%s: %s' % (r['cls'], tuple(r['size']), r['name'], r['axis'], r['dir'], r['p16'],
+                                                                                    ' (asked again after generate() and get_weights() on the same objects)' if r.get('again') else '', what),
                       {'instance': ikey(r, 'probability_distribution'), 'direction_eighths': r['dir'], 'rate_sixteenths': r['p16'],
                        'qubit': bad[0] if bad else None}, no_input=bad is None)
     # (b) sampling
@@ -148,7 +149,7 @@ def run(rep, work, tier, seed, only=None):
                       {'instance': ikey(s, 'generate'), 'variates': s['us'], 'returned': s['pauli'], 'dists': s['dists']}, no_input=bad is None)
     # (c) weights (floats)
     for w in data['weights']:
-        rep.case(('weights', w['cls'], tuple(w['size']), w['name'], w['axis'], tuple(w['dir']), w['p16']), True)
+        rep.case(('weights', w['cls'], tuple(w['size']), w['name'], w['axis'], tuple(w['dir']), w['p16'], w.get('again', False)), True)
         rep.count('weights')
         for i, d in enumerate(w['dists']):
             px, py, pz = (Fraction(*d[1]), Fraction(*d[2]), Fraction(*d[3]))
